@@ -182,6 +182,10 @@ def c02_one(res, g, drv_line_out=None):
             for t in teams:
                 for p in t:
                     p.id = t[0].id
+        elif shared == "same-names":
+            # different players (distinct objects, distinct ids) carrying the same non-empty name: two "Alex"
+            for k_, p in enumerate(flat):
+                p.name = ("Alex", "Guest")[k_ % 2] if k_ < 4 else p.name
         elif shared == "row-numbers":
             # ids assigned by the application: row numbers 0, 1, 2, ... and "" are ids like any other (unique here)
             alt = [0, ""] if len(flat) % 2 else [0]
@@ -229,7 +233,8 @@ def c02_one(res, g, drv_line_out=None):
         res.count("zero_sigma_member_games")
     # no object and no id appears twice in the result
     objs = [id(p) for t in out for p in t]
-    ids_ = [p.name for t in out for p in t] if shared else [p.id for t in out for p in t]
+    by_name = bool(shared) and shared != "same-names"       # what tells the players apart in this game: their names, or their ids
+    ids_ = [p.name for t in out for p in t] if by_name else [p.id for t in out for p in t]
     if len(set(objs)) != len(objs) or len(set(ids_)) != len(ids_):
         res.fail("property", "C02: a player appears twice in the result (and another is dropped)", inp)
         return
@@ -246,7 +251,7 @@ def c02_one(res, g, drv_line_out=None):
                     return
     # numbers: the posterior of *that* player (model, slot by slot)
     if drv_line_out is not None:
-        impl = ("OK", [[(name_index[p.name] if shared else flat_index[p.id], p.mu, p.sigma) for p in t] for t in out])
+        impl = ("OK", [[(name_index[p.name] if by_name else flat_index[p.id], p.mu, p.sigma) for p in t] for t in out])
         mm = compare_rate(g, impl, parse_rate_out(drv_line_out))
         res.traces += 1
         if mm:
@@ -265,7 +270,7 @@ def c02_games(res, rng, n):
                 t[j] = (t[j][0] + 0.37 * k * g["beta"] / 4, t[j][1] * (1 + 0.011 * k) if st_ != "same-sigma" else t[j][1])
                 k += 1
         if rng.random() < 0.22:
-            g["_shared_ids"] = rng.choice(["first-players", "first-players", "everyone", "team-mates", "row-numbers", "row-numbers"])
+            g["_shared_ids"] = rng.choice(["first-players", "first-players", "everyone", "team-mates", "row-numbers", "row-numbers", "same-names", "same-names"])
             if rng.random() < 0.5:
                 g["ls"] = True          # the sigma cap is looked up per player
         if rng.random() < 0.25:
@@ -862,6 +867,8 @@ def c05(res):
         describe(res, g)
         c05_sole(res, g, games)
         g2 = gen_game(rng, stratum=stratum, n=2, options=False)
+        if k % 3 == 0:
+            g2["tauopt"] = 0.0          # no inflation in force: the values the model sees are the values the caller passed
         res.case(g2)
         c05_two(res, g2, games)
         if not IS_PART[g["kind"]]:
